@@ -18,7 +18,12 @@ def run(tier, seed, ev):
         snap = ("snapshot written, synced and renamed before any segment is pruned", T.p_snapshot_before_prune, "snapshot_before_prune", "strace")
         seal = ("the end marker is written only when a segment is left for good (before a new segment is opened)",
                 T.p_sentinel_only_on_rollover, "sentinel_on_rollover", "strace")
-        rc_t = tprop.run_t(PROP, tier, seed, ev, ex, [("put.finish", [one, snap, seal]), ("remove", [one, snap, seal]), ("checkpoint", [snap])],
+        rec = ("a successful operation appends exactly one record: next unused version, right segment, encoding the applied operation",
+               T.make_p_record_content(ex), "record_content", "probe:replay_api_wrappers")
+        snc = ("a written snapshot holds the in-memory map and is labelled with the highest written version",
+               T.make_p_snapshot_content(ex), "snapshot_content", "probe:replay_api_wrappers")
+        tprop.SCEN_INJ.append(("src/lib.rs", "replay_api.rs", "verif_replay_api"))
+        rc_t = tprop.run_t(PROP, tier, seed, ev, ex, [("put.finish", [one, snap, seal, rec, snc]), ("remove", [one, snap, seal, rec, snc]), ("checkpoint", [snap, snc])],
                            N=2, spill=True)
         c02.fill(ev, ex, mir_s, tier)
         ev.functions += c03.KH_LIST[0].functions + tcommon.MIR_FUNCS[:6]
